@@ -14,14 +14,6 @@ open IV.Gen.Responses
 
 /-! ### the regenerated table -/
 
-/-- what the theorems below assume about the two infrastructure classes -/
-structure WFCfg (cfg : Cfg) : Prop where
-  skip_type : cfg.skipCls.rtype = some sSkip
-  skip_nokey : cfg.skipCls.keyName = none
-  none_type : cfg.noneCls.rtype = some sNoneT
-  none_key : ∃ kn, cfg.noneCls.keyName = some kn ∧ kn ≠ sType
-  none_key_ok : cfg.noneKey ≠ []
-
 /-- the live `_make_skip` / `make_none` classes are as assumed -/
 theorem table_cfg : WFCfg cfg := by
   refine ⟨by decide, by decide, by decide, ⟨"none_key".toList, by decide, by decide⟩, by decide⟩
@@ -45,35 +37,6 @@ theorem table_types :
   decide
 
 /-! ### validation -/
-
-theorem valid_iff (c : RClass) (key : PyVal) (kwargs : Dict) :
-    Valid c key kwargs ↔
-      ¬ (c.rtype = none ∨ hasKey sType kwargs = true ∨
-          ∃ kn, c.keyName = some kn ∧ (hasKey kn kwargs = true ∨ ¬ ∃ s, key = .str s ∧ s ≠ [])) := by
-  constructor
-  · rintro ⟨h1, h2, h3⟩ h
-    rcases h with h | h | ⟨kn, hk, h⟩
-    · simp [h] at h1
-    · simp [h2] at h
-    · obtain ⟨a, b, d⟩ := h3 kn hk
-      rcases h with h | h
-      · simp [a] at h
-      · exact h ((key_ok_iff key).mp ⟨b, d⟩)
-  · intro h
-    simp only [not_or, not_exists, not_and] at h
-    obtain ⟨h1, h2, h3⟩ := h
-    refine ⟨?_, by simpa using h2, ?_⟩
-    · cases hr : c.rtype with
-      | none => exact absurd hr h1
-      | some t => rfl
-    · intro kn hk
-      have := h3 kn hk
-      refine ⟨by simpa using this.1, ?_⟩
-      have hk' : ∃ s, key = .str s ∧ s ≠ [] := by
-        by_cases hh : ∃ s, key = .str s ∧ s ≠ []
-        · exact hh
-        · exact absurd hh (by simpa using this.2)
-      exact (key_ok_iff key).mpr hk'
 
 /-- `validation`: the constructor fails exactly when the class has no response type, a reserved name ("type" or
 the class's key name) is among the keyword arguments, or the class has a key name and the key is missing,
@@ -162,54 +125,6 @@ example : mkResp 0 c_make_metadata_key (.str "k".toList) [(sValue, .int 1)] =
 
 /-! ### the outcome of one rule -/
 
-theorem observeKind_ne_nothing (resp : Resp) : observeKind resp ≠ .nothing := by
-  unfold observeKind
-  repeat' split
-  all_goals simp
-
-theorem observeKind_ne_exception (resp : Resp) (es : List Exc) : observeKind resp ≠ .exception es := by
-  unfold observeKind
-  repeat' split
-  all_goals simp
-
-theorem ofMk_ne_skipped (x : Except VErr Resp) (pre : List Exc) : ofMk x ≠ .skipped pre := by
-  cases x <;> simp [ofMk]
-
-theorem invoke_skipped_nil_iff (env : Env) (r : Rule) : invoke env r = .skipped [] ↔ r.act = .raise .skip := by
-  unfold invoke
-  cases ha : r.act with
-  | ret c key kwargs => simp [ofMk_ne_skipped]
-  | retNone => simp [ofMk_ne_skipped]
-  | retOther => simp
-  | raise e => cases e <;> simp
-
-theorem process_ignored (env : Env) (present : List Comp) (r : Rule) (h : ignored present r = true) :
-    process env present r = .skipped [] := by
-  simp [process, h]
-
-theorem process_missing (env : Env) (present : List Comp) (r : Rule) (m : Missing) (h : ignored present r = false)
-    (hm : missingDeps present r = some m) :
-    process env present r = ofMk (mkResp env.limit env.cfg.skipCls .none (skipKwargs env r m)) := by
-  simp [process, h, hm]
-
-theorem process_invoked' (env : Env) (present : List Comp) (r : Rule) (h : ignored present r = false)
-    (hm : missingDeps present r = none) : process env present r = invoke env r := by
-  simp [process, h, hm]
-
-theorem process_skipped_nil_iff (env : Env) (present : List Comp) (r : Rule) :
-    process env present r = .skipped [] ↔
-      (ignored present r = true ∨ (missingDeps present r = none ∧ r.act = .raise .skip)) := by
-  cases hi : ignored present r with
-  | true => simp [process_ignored env present r hi]
-  | false =>
-    cases hm : missingDeps present r with
-    | some m => simp [process_missing env present r m hi hm, ofMk_ne_skipped]
-    | none => simp [process_invoked' env present r hi hm, invoke_skipped_nil_iff]
-
-theorem classify_enabled (env : Env) (present : List Comp) (r : Rule) (h : r.enabled = true) :
-    classify env present r = finalOfProc env (process env present r) := by
-  simp [classify, h]
-
 /-- `outcome_exclusive`, the "nothing" half: a rule leaves no trace exactly when it is disabled, or when it is
 deliberately skipped (an IGNORE entry fired, or its body raised SkipComponent) and skips are not recorded -/
 theorem nothing_iff (env : Env) (present : List Comp) (r : Rule) :
@@ -246,14 +161,6 @@ theorem exception_nonempty (env : Env) (present : List Comp) (r : Rule) (es : Li
         cases h
         simpa using hne
 
-/-- the body ran: the rule is enabled, not ignored and has what it requires -/
-def Invoked (present : List Comp) (r : Rule) : Prop :=
-  r.enabled = true ∧ ignored present r = false ∧ missingDeps present r = none
-
-theorem classify_invoked (env : Env) (present : List Comp) (r : Rule) (h : Invoked present r) :
-    classify env present r = finalOfProc env (invoke env r) := by
-  rw [classify_enabled env present r h.1, process_invoked' env present r h.2.1 h.2.2]
-
 /-- `validation`, second half: a return value that is not a response is an exception recorded against the rule -/
 theorem bad_return_rejected (env : Env) (present : List Comp) (r : Rule) (h : Invoked present r)
     (ha : r.act = .retOther) : classify env present r = .exception [.badReturn] := by
@@ -270,13 +177,6 @@ theorem invalid_response_rejected (env : Env) (present : List Comp) (r : Rule) (
   rw [classify_invoked env present r h]
   simp [invoke, ha, he, ofMk, finalOfProc]
 
-theorem observeKind_built_typed (limit : Nat) (c : RClass) (t : Str) (key : PyVal) (kwargs : Dict)
-    (hty : hasKey sType kwargs = false) (h1 : t ≠ sSkip) (h2 : t ≠ sMetadata) (h3 : t ≠ sMetadataKey) :
-    observeKind (built limit c t key kwargs) = .entry t (built limit c t key kwargs) := by
-  unfold observeKind
-  rw [built_type limit c t key kwargs hty]
-  simp [h1, h2, h3]
-
 /-- a valid response of an ordinary type `t` (anything but skip / metadata / metadata_key — the built-in fail,
 pass, info, fingerprint, none and every custom type) is listed under `t`, as built (full or stub) -/
 theorem typed_response_listed (env : Env) (present : List Comp) (r : Rule) (h : Invoked present r)
@@ -288,15 +188,6 @@ theorem typed_response_listed (env : Env) (present : List Comp) (r : Rule) (h : 
   simp only [invoke, ha, mkResp_of_valid env.limit c t key kwargs ht hv, ofMk, finalOfProc]
   exact observeKind_built_typed env.limit c t key kwargs hv.2.1 h1 h2 h3
 
-theorem none_valid (cfg : Cfg) (h : WFCfg cfg) : Valid cfg.noneCls (.str cfg.noneKey) [] := by
-  refine ⟨by simp [h.none_type], by simp [hasKey], ?_⟩
-  intro kn _
-  refine ⟨by simp [hasKey], ?_, rfl⟩
-  have := h.none_key_ok
-  cases hk : cfg.noneKey with
-  | nil => exact absurd hk this
-  | cons a b => simp [PyVal.truthy]
-
 /-- a rule that returns None is listed once under "none" with the key of the live `make_none` -/
 theorem none_listed (env : Env) (present : List Comp) (r : Rule) (h : Invoked present r) (hc : WFCfg env.cfg)
     (ha : r.act = .retNone) :
@@ -304,59 +195,6 @@ theorem none_listed (env : Env) (present : List Comp) (r : Rule) (h : Invoked pr
   rw [classify_invoked env present r h]
   simp only [invoke, ha, mkResp_of_valid env.limit env.cfg.noneCls sNoneT _ [] hc.none_type (none_valid env.cfg hc), ofMk, finalOfProc]
   exact observeKind_built_typed _ _ _ _ _ (by simp [hasKey]) (by decide) (by decide) (by decide)
-
-theorem skipKwargs_no_type (env : Env) (r : Rule) (m : Missing) : hasKey sType (skipKwargs env r m) = false := by
-  simp only [hasKey, skipKwargs, List.any_cons, List.any_nil]
-  decide
-
-theorem skip_valid (env : Env) (r : Rule) (m : Missing) (h : WFCfg env.cfg) :
-    Valid env.cfg.skipCls .none (skipKwargs env r m) := by
-  refine ⟨by simp [h.skip_type], skipKwargs_no_type env r m, ?_⟩
-  intro kn hk
-  rw [h.skip_nokey] at hk
-  cases hk
-
-theorem observeKind_built_skip (limit : Nat) (c : RClass) (key : PyVal) (kwargs : Dict)
-    (hty : hasKey sType kwargs = false) :
-    observeKind (built limit c sSkip key kwargs) = .skipEntry (built limit c sSkip key kwargs) := by
-  unfold observeKind
-  rw [built_type limit c sSkip key kwargs hty]
-  simp
-
-theorem observeKind_built_not_skip (limit : Nat) (c : RClass) (t : Str) (key : PyVal) (kwargs : Dict)
-    (hty : hasKey sType kwargs = false) (hne : t ≠ sSkip) (resp : Resp) :
-    observeKind (built limit c t key kwargs) ≠ .skipEntry resp := by
-  unfold observeKind
-  rw [built_type limit c t key kwargs hty]
-  simp only [hne, if_false]
-  repeat' split
-  all_goals simp
-
-theorem invoke_not_skipEntry (env : Env) (r : Rule) (hc : WFCfg env.cfg)
-    (hact : ∀ c key kwargs, r.act = .ret c key kwargs → c.rtype ≠ some sSkip) (resp : Resp) :
-    finalOfProc env (invoke env r) ≠ .skipEntry resp := by
-  unfold invoke
-  cases ha : r.act with
-  | ret c key kwargs =>
-    simp only
-    cases ht : c.rtype with
-    | none => simp [mkResp, ht, ofMk, finalOfProc]
-    | some t =>
-      by_cases hv : Valid c key kwargs
-      · rw [mkResp_of_valid env.limit c t key kwargs ht hv]
-        simp only [ofMk, finalOfProc]
-        have hne : t ≠ sSkip := by
-          intro heq; exact hact c key kwargs ha (by rw [ht, heq])
-        exact observeKind_built_not_skip _ _ _ _ _ hv.2.1 hne resp
-      · obtain ⟨e, he⟩ := mkResp_error_of_invalid env.limit c key kwargs hv
-        simp [he, ofMk, finalOfProc]
-  | retNone =>
-    simp only
-    rw [mkResp_of_valid env.limit env.cfg.noneCls sNoneT _ [] hc.none_type (none_valid env.cfg hc)]
-    simp only [ofMk, finalOfProc]
-    exact observeKind_built_not_skip _ _ _ _ _ (by simp [hasKey]) (by decide) resp
-  | retOther => simp [finalOfProc]
-  | raise e => cases e <;> simp [finalOfProc] <;> split <;> simp
 
 /-- `counted_once`, skips: a rule gets a skip entry exactly when it is enabled, not ignored and has missing
 dependencies (rules that themselves return a skip-typed response excluded) -/
@@ -424,12 +262,12 @@ def witnessRule : Rule := ⟨1, "pkg.mod.report".toList, some "mod".toList, [], 
 
 set_option maxRecDepth 100000 in
 /-- … and is false of the current code: with limit 60 the skip entry of a rule that misses one dependency
-is `{type: skip, max_detail_length_error: 132}` (known finding skip-stub-anonymous, replayed by the harness) -/
+is `{type: skip, max_detail_length_error: 129}` (known finding skip-stub-anonymous, replayed by the harness) -/
 theorem skips_name_missing_witness : ¬ SkipsNameMissing := by
   intro h
   obtain ⟨resp, h1, h2, _⟩ := h witnessEnv [] witnessRule ⟨[0], []⟩ table_cfg rfl (by decide) (by decide)
   have hcl : classify witnessEnv [] witnessRule =
-      .skipEntry ⟨c__make_skip, [(sType, .str sSkip), (sMaxErr, .int 132)]⟩ := by decide
+      .skipEntry ⟨c__make_skip, [(sType, .str sSkip), (sMaxErr, .int 129)]⟩ := by decide
   rw [hcl] at h1
   cases h1
   revert h2
@@ -439,51 +277,29 @@ theorem skips_name_missing_witness : ¬ SkipsNameMissing := by
 theorem metadata_key_listed (env : Env) (present : List Comp) (r : Rule) (h : Invoked present r)
     (k : Str) (v : PyVal) (hk : k ≠ []) (ha : r.act = .ret c_make_metadata_key (.str k) [(sValue, v)]) :
     ∃ resp, classify env present r = .metadataKey resp k v := by
+  have e1 : sValue ≠ sType := by decide
+  have e2 : sValue ≠ ['k', 'e', 'y'] := by decide
+  have hkn : c_make_metadata_key.keyName = some ['k', 'e', 'y'] := by decide
   have hv : Valid c_make_metadata_key (.str k) [(sValue, v)] := by
-    refine ⟨by decide, by simp [hasKey]; decide, ?_⟩
-    intro kn hkn
-    have : kn = "key".toList := by
-      have : c_make_metadata_key.keyName = some "key".toList := by decide
-      rw [this] at hkn; cases hkn; rfl
-    subst this
-    refine ⟨by simp [hasKey]; decide, ?_, rfl⟩
+    refine ⟨by decide, by simp [hasKey, e1], ?_⟩
+    intro kn hkn'
+    rw [hkn] at hkn'
+    cases hkn'
+    refine ⟨by simp [hasKey, e2], ?_, rfl⟩
     cases k with
     | nil => exact absurd rfl hk
     | cons a b => simp [PyVal.truthy]
-  refine ⟨⟨c_make_metadata_key, [(sValue, v), (sType, .str sMetadataKey), ("key".toList, .str k)]⟩, ?_⟩
+  refine ⟨built env.limit c_make_metadata_key sMetadataKey (.str k) [(sValue, v)], ?_⟩
   rw [classify_invoked env present r h]
   simp only [invoke, ha, mkResp_of_valid env.limit c_make_metadata_key sMetadataKey _ _ (by decide) hv, ofMk, finalOfProc]
-  have hb : built env.limit c_make_metadata_key sMetadataKey (.str k) [(sValue, v)] =
-      ⟨c_make_metadata_key, [(sValue, v), (sType, .str sMetadataKey), ("key".toList, .str k)]⟩ := by
-    simp [built, baseFields, keyField, c_make_metadata_key]
-  rw [hb]
-  simp [observeKind, lookup, Resp.getKey, c_make_metadata_key, sType, sValue, sMetadataKey, sSkip, sMetadata]
+  exact observeKind_built_mdk env.limit c_make_metadata_key ['k', 'e', 'y'] k v (by decide) (by decide) hkn
+    (by decide) (by decide)
 
 /-! ### whole rule sets -/
-
-theorem init_present (seed : List Comp) : (St.init seed).present = seed := by
-  induction seed with
-  | nil => rfl
-  | cons a rest ih => simp only [St.init, St.present, List.map_cons, List.map_map] at ih ⊢; rw [ih]
-
-/-- `run` is "apply each rule's outcome, in order" -/
-theorem run_eq (env : Env) (seed : List Comp) (rules : List Rule) (h : Fresh seed rules) :
-    run env seed rules = applyAll (St.init seed) (finals env seed rules) := by
-  unfold run
-  have := foldl_step_eq env rules (St.init seed) (by rw [init_present]; exact h)
-  rw [init_present] at this
-  exact this
 
 /-- every participating rule has exactly one outcome -/
 theorem every_rule_has_outcome (env : Env) (seed : List Comp) (rules : List Rule) :
     (finals env seed rules).map (·.1) = rules := finals_map_fst env seed rules
-
-theorem finals_nodup (env : Env) (seed : List Comp) (rules : List Rule) (h : Fresh seed rules) :
-    ((finals env seed rules).map (·.1.id)).Nodup := by
-  have h3 : ((finals env seed rules).map (·.1)).map (·.id) = rules.map (·.id) := by rw [finals_map_fst]
-  rw [List.map_map] at h3
-  have h2 : (finals env seed rules).map (·.1.id) = rules.map (·.id) := h3
-  rw [h2]; exact h.1
 
 /-- `outcome_exclusive`: for every rule set (identities distinct and not seeded), in every state the evaluator
 can reach, what is listed for a rule — entries under all headings together, skip entries, metadata merges,
@@ -493,16 +309,6 @@ theorem outcome_exclusive (env : Env) (seed : List Comp) (rules : List Rule) (h 
     (r : Rule) (f : Final) (hmem : (r, f) ∈ finals env seed rules) :
     tally (run env seed rules) r.id = f.tally := by
   rw [run_eq env seed rules h, tally_applyAll _ _ r f (finals_nodup env seed rules h) hmem, tally_init, Tally.zero_add]
-
-theorem finals_mem_classify (env : Env) (present : List Comp) (rules : List Rule) (r : Rule) (f : Final)
-    (h : (r, f) ∈ finals env present rules) : ∃ p, f = classify env p r := by
-  induction rules generalizing present with
-  | nil => cases h
-  | cons r' rs ih =>
-    simp only [finals, List.mem_cons] at h
-    rcases h with h | h
-    · cases h; exact ⟨present, rfl⟩
-    · exact ih _ h
 
 /-- … hence no rule is ever counted twice: listings of every kind add up to at most one, and to zero exactly
 for the outcomes `nothing` (characterised by `nothing_iff`) and `unlisted` (malformed custom metadata_key) -/
@@ -555,35 +361,52 @@ theorem metadata_merged (env : Env) (seed : List Comp) (rules : List Rule) (h : 
   rw [run_eq env seed rules h, applyAll_metadata, applyAll_mdKeys]
   simp [St.init]
 
+/-! ### get_response -/
+
+/-- what `get_response()` puts under every heading, for every reachable evaluator state: the analysis block; the
+entries of each listed type other than rule / fingerprint under the type's own name; "skips", "fingerprints",
+"reports", "system" (in this order of precedence when a custom type is named like one of them); otherwise the
+metadata key of that name, if any -/
+theorem response_headings (env : Env) (seed : List Comp) (rules : List Rule) (h : Fresh seed rules) (hd : Str) :
+    lookup hd (getResponse (run env seed rules)) =
+      if hd = sAnalysis then some .analysis
+      else if hd ∈ keysOf (run env seed rules).results ∧ ¬ (hd = sRule ∨ hd = sFingerprint) then
+        some (.entries (getList hd (run env seed rules).results))
+      else if hd = sSkips then some (.skips ((run env seed rules).skips.map (·.2)))
+      else if hd = sFingerprints then some (.entries (getList sFingerprint (run env seed rules).results))
+      else if hd = sReports then some (.entries (getList sRule (run env seed rules).results))
+      else if hd = sSystem then some (.system (some (run env seed rules).metadata))
+      else lookup hd ((run env seed rules).mdKeys.map (fun kv => (kv.1, Top.val kv.2))) := by
+  apply lookup_getResponse
+  rw [run_eq env seed rules h]
+  exact applyAll_results_nodup _ _ (by simp [St.init])
+
+/-- a listed type other than rule / fingerprint is reported under its own name, with exactly its entries
+(`counted_once` says which) -/
+theorem typed_heading (env : Env) (seed : List Comp) (rules : List Rule) (h : Fresh seed rules) (t : Str)
+    (hl : t ∈ keysOf (run env seed rules).results) (h1 : t ≠ sRule) (h2 : t ≠ sFingerprint) (h3 : t ≠ sAnalysis) :
+    lookup t (getResponse (run env seed rules)) = some (.entries (getList t (run env seed rules).results)) := by
+  rw [response_headings env seed rules h]
+  simp [h1, h2, h3, hl]
+
+/-- fail responses are reported under "reports", fingerprints under "fingerprints" (when no custom response type
+carries one of these names) -/
+theorem reports_heading (env : Env) (seed : List Comp) (rules : List Rule) (h : Fresh seed rules)
+    (h1 : sReports ∉ keysOf (run env seed rules).results) (h2 : sFingerprints ∉ keysOf (run env seed rules).results) :
+    lookup sReports (getResponse (run env seed rules)) = some (.entries (getList sRule (run env seed rules).results)) ∧
+    lookup sFingerprints (getResponse (run env seed rules)) =
+      some (.entries (getList sFingerprint (run env seed rules).results)) := by
+  have a1 : sReports ≠ sAnalysis := by decide
+  have a2 : sReports ≠ sSkips := by decide
+  have a3 : sReports ≠ sFingerprints := by decide
+  have b1 : sFingerprints ≠ sAnalysis := by decide
+  have b2 : sFingerprints ≠ sSkips := by decide
+  rw [response_headings env seed rules h, response_headings env seed rules h]
+  constructor
+  · simp only [a1, a2, a3, h1, false_and, if_false, if_true]
+  · simp only [b1, b2, h2, false_and, if_false, if_true]
+
 /-! ### formatters -/
-
-def dropMd : Top → Top
-  | .system _ => .system none
-  | v => v
-
-theorem lookup_popMetadata (h : Str) (r : Report) :
-    lookup h (popMetadata r) = if h = sSystem then (lookup h r).map dropMd else lookup h r := by
-  induction r with
-  | nil => simp [popMetadata, lookup]
-  | cons kv rest ih =>
-    obtain ⟨k, v⟩ := kv
-    by_cases hk : k = sSystem
-    · subst hk
-      by_cases hh : h = sSystem
-      · subst hh; cases v <;> simp [popMetadata, lookup, dropMd]
-      · simp [popMetadata, lookup, hh, Ne.symm hh]
-    · by_cases hh : k = h
-      · subst hh; simp [popMetadata, lookup, hk]
-      · simp only [popMetadata, hk, if_false, lookup, hh]
-        exact ih
-
-theorem lookup_condErase (b : Bool) (k h : Str) (d : Report) :
-    lookup h (condErase b k d) = if b = true ∧ h = k then none else lookup h d := by
-  cases b <;> simp [condErase, lookup_erase]
-
-theorem lookup_condPop (b : Bool) (h : Str) (d : Report) :
-    lookup h (condPop b d) = if b = true ∧ h = sSystem then (lookup h d).map dropMd else lookup h d := by
-  cases b <;> simp [condPop, lookup_popMetadata]
 
 /-- `formatter_filter`, without `-S`: exactly "skips" (unless `-m`) and "none" go; every other heading keeps its value -/
 theorem formatter_filter_default (resp : Report) (missing : Bool) (h : Str) :
@@ -701,12 +524,12 @@ theorem formatter_filter (resp : Report) (missing : Bool) (showRules : List Str)
     simp only [listTypes, List.mem_cons, List.not_mem_nil, or_false] at ht
     rw [formatter_filter_select _ _ _ hnil]
     rcases ht with rfl | rfl | rfl | rfl | rfl
-    · cases hc : showRules.contains sRule <;> simp [asked, he, hc, e1, n1, m1, m2, m3, m4, m5]
-    · cases hc : showRules.contains sInfo <;> simp [asked, he, hc, e2, n2, Ne.symm m1, p1, p2, p3, p4]
-    · cases hc : showRules.contains sPass <;> simp [asked, he, hc, e3, n3, Ne.symm m2, Ne.symm p1, q1, q2, q3]
-    · cases hc : showRules.contains sNoneT <;> simp [asked, he, hc, e4, n4, Ne.symm m3, Ne.symm p2, Ne.symm q1, r1, r2]
-    · cases hc : showRules.contains sFingerprint <;>
-        simp [asked, he, hc, e5, n5, Ne.symm m4, Ne.symm p3, Ne.symm q2, Ne.symm r1, s1]
+    · by_cases hm : sRule ∈ showRules <;> simp [asked, he, hm, e1, n1, m1, m2, m3, m4, m5]
+    · by_cases hm : sInfo ∈ showRules <;> simp [asked, he, hm, e2, n2, Ne.symm m1, p1, p2, p3, p4]
+    · by_cases hm : sPass ∈ showRules <;> simp [asked, he, hm, e3, n3, Ne.symm m2, Ne.symm p1, q1, q2, q3]
+    · by_cases hm : sNoneT ∈ showRules <;> simp [asked, he, hm, e4, n4, Ne.symm m3, Ne.symm p2, Ne.symm q1, r1, r2]
+    · by_cases hm : sFingerprint ∈ showRules <;>
+        simp [asked, he, hm, e5, n5, Ne.symm m4, Ne.symm p3, Ne.symm q2, Ne.symm r1, s1]
 
 /-- a heading the filter does not know (custom response types, metadata keys, analysis_metadata) is never touched -/
 theorem formatter_filter_other (resp : Report) (missing : Bool) (showRules : List Str) (h : Str)
